@@ -8,6 +8,7 @@ import (
 	"errors"
 	"fmt"
 	"sort"
+	"strings"
 
 	"github.com/ProtonMail/gluon/db"
 	"github.com/ProtonMail/gluon/imap"
@@ -477,9 +478,7 @@ func (w *world) exec(a *act, pre *mDB, ro db.ReadOnly, tx db.Transaction) reply 
 		if err != nil {
 			return val(nil, err, 1)
 		}
-		if len(v) >= len(setPrefix) {
-			v = v[len(setPrefix):]
-		}
+		v = strings.TrimPrefix(v, setPrefix)
 		return val(map[string]any{"value": v, "has": has}, nil, 1)
 	}
 	if tx == nil {
